@@ -10,6 +10,7 @@ import (
 	"crypto/rsa"
 	"fmt"
 	"math/big"
+	"regexp"
 
 	"github.com/markkurossi/mpc/ot"
 	"github.com/markkurossi/mpc/p2p"
@@ -26,6 +27,9 @@ func init() {
 }
 
 type world struct{ tier string }
+
+// digits: the numbers in a scenario description (batch sizes, byte offsets) do not make a reach counter of their own
+var digits = regexp.MustCompile(`[0-9]+|: \[[^\]]*\]`)
 
 // Sizes are the batch sizes around every internal boundary (8, 64, 128, the
 // 512-row chunk).
@@ -911,12 +915,12 @@ func (w *world) Run(t *rt.Tape, trace bool) *core.Result {
 		}()
 	}
 	res.Sample = smp
-	res.Class = smp.Scenario + " " + smp.Kind
+	res.Class = digits.ReplaceAllString(smp.Scenario, "N") + " " + smp.Kind
 
 	rr := rt.Run(rt.Config{Trace: trace, NoProgress: core.NoProgressDefault}, t, body)
 	core.Finish(res, rr)
 	res.Nontrivial = rr.Switches > 2
-	res.Reach["scenario."+smp.Scenario]++
+	res.Reach["scenario."+digits.ReplaceAllString(smp.Scenario, "N")]++
 	if smp.Kind != "" {
 		res.Reach["kind."+smp.Kind]++
 	}
